@@ -370,7 +370,7 @@ func parseBTreePageSpecial(info *IndexPageInfo, special []byte) {
 
 // parseHashPageSpecial parses Hash index special section
 func parseHashPageSpecial(info *IndexPageInfo, special []byte) {
-	if len(special) < 12 {
+	if len(special) < 14 {
 		return
 	}
 	
@@ -503,7 +503,7 @@ func parseBTreeMeta(page []byte) *BTreeMetaPage {
 	
 	// Check if this is a meta page via special section
 	special := binary.LittleEndian.Uint16(page[16:18])
-	if int(special) >= PageSize {
+	if int(special)+14 > PageSize {
 		return nil
 	}
 	
@@ -537,7 +537,7 @@ func parseHashMeta(page []byte) *HashMetaPage {
 	}
 	
 	special := binary.LittleEndian.Uint16(page[16:18])
-	if int(special) >= PageSize {
+	if int(special)+14 > PageSize {
 		return nil
 	}
 	
